@@ -8,7 +8,7 @@ namespace glm
 		vec<3, T, Q> u(q.x, q.y, q.z);
 		T const Angle = glm::length(u);
 		if (Angle < epsilon<T>())
-			return qua<T, Q>();
+			return qua<T, Q>::wxyz(static_cast<T>(1), static_cast<T>(0), static_cast<T>(0), static_cast<T>(0));
 
 		vec<3, T, Q> const v(u / Angle);
 		return qua<T, Q>(cos(Angle), sin(Angle) * v);
